@@ -882,9 +882,16 @@ def run(ctx):
                 skipped['predicted-deep'] += 1; continue
         run_idx.append(i)
     t0 = time.time()
-    iout = run_cases([hexe], [lines[i] for i in run_idx], tmo=60 if quick else 180, workers=6)
+    iout = run_cases([hexe], [lines[i] for i in run_idx], tmo=120 if quick else 300, workers=6)
     ctx.log('implementation (asan): %d cases in %.1fs' % (len(run_idx), time.time() - t0))
     impl = {i: parse_impl(o) for i, o in zip(run_idx, iout)}
+    # a wall-clock time-out on a loaded machine is not a hang: such cases are re-run alone with a long limit (CPU time is what is judged)
+    retried = 0
+    for i in run_idx:
+        if impl[i]['v'] == 'TIMEOUT' and retried < 12:
+            retried += 1
+            impl[i] = parse_impl(_run_chunk([hexe], [lines[i]], 900)[0])
+    ctx.notes['wall_clock_timeouts_retried_alone'] = retried
 
     # ---- calibration of the linear time model on the flat inputs of this run
     def reader_of(c):
